@@ -14,11 +14,27 @@ ENV = dict(os.environ, CARGO_NET_OFFLINE="true")
 ENV.pop("SHUTTLE_RANDOM_SEED", None)
 
 
-def sh(cmd, cwd=None, timeout=3600, env=None, input=None):
+def _limits(mem_gb):
+    def f():
+        import resource
+        lim = int(mem_gb * (1 << 30))
+        resource.setrlimit(resource.RLIMIT_AS, (lim, lim))
+    return f
+
+
+def sh(cmd, cwd=None, timeout=3600, env=None, input=None, mem_gb=None):
+    """run a command; a time-out or a memory-limit kill is reported as a non-zero return code (never an exception):
+    a runaway implementation (e.g. an execution that never ends) must become a reported crash, not a hung check"""
     t0 = time.time()
-    p = subprocess.run(cmd, cwd=cwd, shell=isinstance(cmd, str), capture_output=True, text=True,
-                       timeout=timeout, env=env or ENV, input=input)
-    return p.returncode, p.stdout, p.stderr, time.time() - t0
+    try:
+        p = subprocess.run(cmd, cwd=cwd, shell=isinstance(cmd, str), capture_output=True, text=True,
+                           timeout=timeout, env=env or ENV, input=input,
+                           preexec_fn=_limits(mem_gb) if mem_gb else None)
+        return p.returncode, p.stdout, p.stderr, time.time() - t0
+    except subprocess.TimeoutExpired as e:
+        out = e.stdout.decode(errors="replace") if isinstance(e.stdout, bytes) else (e.stdout or "")
+        err = e.stderr.decode(errors="replace") if isinstance(e.stderr, bytes) else (e.stderr or "")
+        return -9, out, err + f"\n[timeout after {timeout}s]", time.time() - t0
 
 
 class Check:
